@@ -187,7 +187,49 @@ fn enrich(rng: &mut Rng, rec: &mut WorldRecords) {
         e.escape = false;
         rec.system.entries.push(e);
     }
+    // homographs that differ only in their reading, each referenced inline by another word
+    if rng.chance(1, 3) && n > 0 {
+        let base = rng.below(n);
+        if !inline_from_user[base] && rec.system.entries[base].surface.chars().count() <= 4 {
+            let mut twin = rec.system.entries[base].clone();
+            twin.reading = format!("{}ヨミ", twin.reading);
+            twin.dic_form = None;
+            twin.split_a.clear();
+            twin.split_b.clear();
+            twin.word_structure.clear();
+            twin.split_type = "A".into();
+            let unique = |lex: &LexSpec, e: &Entry| lex.entries.iter().filter(|x| x.surface == e.surface && x.pos == e.pos && x.reading == e.reading).count() == 0;
+            if unique(&rec.system, &twin) && rec.system.entries.iter().filter(|x| x.surface == twin.surface && x.pos == twin.pos && x.reading == rec.system.entries[base].reading).count() == 1 {
+                rec.system.entries.push(twin);
+                let twin_idx = rec.system.entries.len() - 1;
+                for (k, tgt) in [base, twin_idx].iter().enumerate() {
+                    let mut w = rec.system.entries[0].clone();
+                    w.surface = format!("同{}{}", k, rng.below(1000));
+                    w.headword = w.surface.clone();
+                    w.reading = w.surface.clone();
+                    w.norm = w.surface.clone();
+                    w.dic_form = None;
+                    w.escape = false;
+                    w.split_type = "C".into();
+                    w.split_a = vec![WordRef { dic: 0, index: *tgt, style: RefStyle::Inline }];
+                    w.split_b = if rng.chance(1, 2) { vec![WordRef { dic: 0, index: *tgt, style: RefStyle::Inline }] } else { vec![] };
+                    w.word_structure = vec![];
+                    rec.system.entries.push(w);
+                }
+            }
+        }
+    }
     for u in rec.users.iter_mut() {
+        // word structure of user words may name user words too
+        for e in u.entries.iter_mut() {
+            if !e.split_a.is_empty() && rng.chance(1, 2) {
+                e.word_structure = e
+                    .split_a
+                    .iter()
+                    .map(|r| WordRef { dic: r.dic, index: r.index, style: if r.dic == 1 { RefStyle::UserNum } else { RefStyle::Num } })
+                    .collect();
+            }
+        }
         let un = u.entries.len();
         for i in 0..un {
             if rng.chance(1, 6) {
